@@ -47,6 +47,7 @@ def run(chk):
     r1_preconditions(chk, repo)
     r2_stable_sorting(chk, repo)
     r3_predicates(chk, repo)
+    r4_break(chk, repo)
 
 
 def _sorted_check_try(node, pname):
@@ -263,8 +264,60 @@ def r3_predicates(chk, repo):
         okord = bool(srt) and bool(t1)
     chk.check(okord, "C17.R3", tw, None, "right bounds are not scanned in order of container end", site_text="_touching_windows: right scan in order of sorted container ends")
 
+# ------------------------------------------------------------------------------------ R4
+def r4_break(chk, repo):
+    from ..linear import linear
+    from ..rules import endtime_accumulators
+    chk.describe("C17.R4", "_find_break_i returns the first index whose start lies at least safe_break after the running maximum of the earlier end times (a gap of exactly safe_break is a break)")
+    R = "C17.R4"
+    f = repo.func("_find_break_i", GENERAL)
+    acc = endtime_accumulators(f)
+    chk.check(bool(acc) and all(ok for _l, _st, ok in acc), R, f, acc[0][1] if acc else None, "the latest end seen is not accumulated with max(): a long early row is forgotten and a break is reported inside it", site_text="_find_break_i: latest end = max(latest end, end of row)")
+    L = acc[0][0] if acc else None
+    loops = [n for n in walk_body(f.node) if isinstance(n, ast.For)]
+    chk.need(len(loops) == 1, "C17.R4: the sweep loop of _find_break_i was not found")
+    lp = loops[0]
+    idx = item = None
+    if isinstance(lp.target, ast.Tuple) and len(lp.target.elts) == 2 and call_name(lp.iter) == "enumerate":
+        idx, item = norm(lp.target.elts[0]), norm(lp.target.elts[1])
+    tests = [st for st in lp.body if isinstance(st, ast.If) and any(isinstance(x, ast.Return) and x.value is not None and norm(x.value) == idx for x in st.body)]
+    chk.check(len(tests) == 1 and isinstance(tests[0].test, ast.Compare) and len(tests[0].test.ops) == 1, R, f, lp, "the loop does not return the index at a single comparison", site_text="_find_break_i: if <gap test>: return i")
+    if len(tests) == 1 and isinstance(tests[0].test, ast.Compare) and len(tests[0].test.ops) == 1:
+        c = tests[0].test
+        op = c.ops[0]
+        a, b = c.left, c.comparators[0]
+        if isinstance(op, (ast.Lt, ast.LtE)):
+            a, b = b, a
+        strict = isinstance(op, (ast.Lt, ast.Gt))
+        okf = isinstance(op, (ast.Lt, ast.LtE, ast.Gt, ast.GtE))
+        form = {}
+        if okf:
+            try:
+                form = linear(ast.BinOp(left=a, op=ast.Sub(), right=b))
+            except AnalysisError:
+                okf = False
+        const = form.pop("1", 0) if form else 0
+        want = {f"{item}['time']": 1, L: -1, f.params[1]: -1}
+        chk.check(okf and form == want and const == 0 and not strict, R, f, tests[0], f"the break test is not `start - latest end - safe_break >= 0` (found {form}, constant {const}, {'strict' if strict else 'non-strict'}): gaps of exactly safe_break are missed or too-small gaps accepted",
+                  site_text="_find_break_i: row start >= latest end + safe_break", site={"function": f.qualname, "rule": "break predicate"})
+        # the accumulator is updated after the test, once per row
+        if acc:
+            ups = [st for _l, st, _ok in acc]
+            chk.check(all(st in lp.body and lp.body.index(st) > lp.body.index(tests[0]) for st in ups), R, f, ups[0], "the latest end is updated with the current row before the gap to it is tested (the gap would always be measured against the row itself)", site_text="_find_break_i: test before update")
+    init = [st for st in f.node.body if isinstance(st, ast.Assign) and L and norm(st.targets[0]) == L]
+    chk.check(bool(init) and f.params[2] in norm(init[0].value) and "endtime" in norm(init[0].value) and norm(init[0].value).startswith("max("), R, f, init[0] if init else None, "the sweep does not start from max(not_before, end of the first row)", site_text="_find_break_i: latest end starts at max(not_before, first end)")
+    fb = repo.func("from_break", GENERAL)
+    ok = any(isinstance(st, ast.Assign) and isinstance(st.value, ast.Call) and call_name(st.value) == "_find_break_i" for st in walk_body(fb.node))
+    chk.check(ok, R, fb, None, "from_break does not use _find_break_i", site_text="from_break: break index from _find_break_i", nontrivial=False)
+
 
 WITNESSES = [
+    W("gap of exactly safe_break is not a break", "C17.R4", GENERAL,
+      "if d[\"time\"] >= latest_end_seen + safe_break:", "if d[\"time\"] > latest_end_seen + safe_break:"),
+    W("break measured against the previous row only", "C17.R4", GENERAL,
+      "return i\n        latest_end_seen = max(latest_end_seen, strax.endtime(d))", "return i\n        latest_end_seen = strax.endtime(d)"),
+    W("safe_break subtracted twice", "C17.R4", GENERAL,
+      "if d[\"time\"] >= latest_end_seen + safe_break:", "if d[\"time\"] + safe_break >= latest_end_seen + safe_break + safe_break + safe_break:"),
     W("fully_contained_in without the sanity check", "C17.R1", GENERAL,
       "_fully_contained_in_sanity(things, containers)\n\n    return _fully_contained_in(things, containers)", "return _fully_contained_in(things, containers)"),
     W("containers' sortedness only warned about", "C17.R1", GENERAL,
